@@ -1,7 +1,7 @@
 (* C12 — A completed rebalance assigns each partition to exactly one subscriber.
    Only statements closed by [exact]; proofs live in proofs/CoordinatorProofs.v.
    The model is of JoinGroup WITH fixes/C12-rejoin-changed-subscription.patch. *)
-From KS Require Import lib.Base model.Coordinator proofs.CoordinatorBase proofs.CoordinatorProofs.
+From KS Require Import lib.Base model.Coordinator proofs.CoordinatorBase proofs.CoordinatorProofs proofs.CoordinatorTrace.
 Open Scope Z_scope.
 
 (* (1) For every history (joins, syncs, heartbeats, leaves, commits, cleanup ticks at any
@@ -30,6 +30,18 @@ Theorem C12_one_map_per_generation : forall E h o n0 n1 g g',
   stable_same g g'.
 Proof. intros E h o n0 n1 g g'. apply c12_step_same_generation. apply run_inv. Qed.
 Print Assumptions C12_one_map_per_generation.
+
+(* (2') the same along any continuation during which the group keeps existing (any number
+       of operations, incl. failovers): if the generation at the end is the one the Stable
+       group had, the members, subscriptions and per-member assignment are unchanged --
+       every sync answered in that generation, however far apart, reads one map. *)
+Theorem C12_one_map_per_generation_multi : forall E h h2 n0 n1 g g',
+  alive_all E (run E h) h2 ->
+  cur (run E h) n0 = Some g -> g_phase g = PStable ->
+  cur (run_from E (run E h) h2) n1 = Some g' -> g_gen g' = g_gen g ->
+  stable_same g g'.
+Proof. intros E h h2 n0 n1 g g'. apply c12_same_generation. apply run_inv. Qed.
+Print Assumptions C12_one_map_per_generation_multi.
 
 (* the assignment function itself, for any member/subscription map with distinct ids *)
 Theorem C12_round_robin_unique : forall E sm a b t psa psb p,
